@@ -60,7 +60,7 @@ fn op() -> impl Strategy<Value = Op> {
 fn conc_case() -> impl Strategy<Value = ConcCase> {
     // roots with a history behind them: recurrence-heavy small games (so that repetition lookups have
     // something to find) as well as ordinary ones
-    let params = GameParams { max_ops: 160, w_setup: 1, w_pos: 3, w_small: 6, w_frozen: 1 };
+    let params = GameParams { max_ops: 160, w_setup: 1, w_pos: 3, w_small: 6, w_frozen: 1, hanging: false };
     let prog = (prop::collection::vec(op(), 1..6), 0u8..4, prop::collection::vec(op(), 0..4)).prop_map(|(phase1, hand, phase2)| Prog { phase1, hand, phase2 });
     (gen::game(params), prop_oneof![1 => Just(Profile::Normal), 3 => Just(Profile::Cycle), 1 => Just(Profile::Fight)], prop::collection::vec(prog, 2..=8))
         .prop_map(|(game, profile, progs)| ConcCase { game, profile, progs })
@@ -72,7 +72,7 @@ impl Obs for Nop {}
 /// The actions of the generated game; the root is the state they reach (so it has a history).
 fn root_actions(c: &ConcCase) -> Option<Vec<Action>> {
     let mut st = Stats::default();
-    let (_end, trace) = drive::run_case(&c.game, &WalkOpts { profile: c.profile, expand: None }, &mut Nop, &mut st).ok()?;
+    let (_end, trace) = drive::run_case(&c.game, &WalkOpts { profile: c.profile, expand: None, follow_norep: false, inject: arimaa_verif::drive::Inject::No }, &mut Nop, &mut st).ok()?;
     // a finished game has nothing to expand: step back to the last state without a result
     let mut actions = trace.actions;
     loop {
@@ -377,6 +377,7 @@ fn replay(path: &str) -> i32 {
     }
     0
 }
+
 
 fn main() {
     install_hook();
